@@ -368,28 +368,47 @@ theorem exec_fnCell (a : Addr) (s : State) :
   | none => simp [exec_unsupported]
   | some c => cases c <;> simp [exec_pure, exec_unsupported, exec_map, exec_getS]
 
+theorem rel_setLocal (fc) (W : Nat → Prop) (nl : Nat) (i : Int) (v : V) :
+    Rel2 (PreEq fc W) (PreEq fc W) Eq (setLocal nl i v) (setLocal nl i v) := by
+  unfold setLocal; rel
+macro_rules | `(tactic| rel_prim) => `(tactic| exact rel_setLocal _ _ _ _ _)
+
+theorem rel_copyLocals (fc) (W : Nat → Prop) (nl : Nat) (xs : List V) :
+    Rel2 (PreEq fc W) (PreEq fc W) Eq (copyLocals nl xs) (copyLocals nl xs) := by
+  unfold copyLocals; rel
+macro_rules | `(tactic| rel_prim) => `(tactic| exact rel_copyLocals _ _ _ _)
+
+/-- `fillUndefined 0 n`: afterwards the slots below `n` agree -/
+theorem rel_fillUndefined (fc) (W : Nat → Prop) (n : Nat) :
+    Rel2 (PreEq fc W) (PreEq fc (fun j => W j ∨ j < n)) Eq (fillUndefined 0 n) (fillUndefined 0 n) := by
+  unfold fillUndefined
+  simp only [Int.zero_add]
+  refine Rel2.bind (VR := Eq) (rel_initLoop fc W n) ?_
+  intro a b _
+  exact Rel2.pure rfl
+
 theorem rel_initShape {fc : Option (Nat × Option (List Addr))} {W0 : Nat → Prop} {n : Nat} (msg : String) (rest : M Unit)
     (hrest : ∀ W, Rel2 (PreEq fc W) (PreEq fc W) Eq rest rest) :
     Rel2 (PreEq fc W0) (PreEq fc (fun j => W0 j ∨ j < n)) Eq
       (if n > stackSize then (do
           VM.panic msg
-          forIn [:n] PUnit.unit fun (i : Nat) (_ : PUnit) => (do stackSet (↑i) V.undefined; pure (ForInStep.yield PUnit.unit) : M _)
+          fillUndefined 0 n
           rest)
         else (do
-          forIn [:n] PUnit.unit fun (i : Nat) (_ : PUnit) => (do stackSet (↑i) V.undefined; pure (ForInStep.yield PUnit.unit) : M _)
+          fillUndefined 0 n
           rest))
       (if n > stackSize then (do
           VM.panic msg
-          forIn [:n] PUnit.unit fun (i : Nat) (_ : PUnit) => (do stackSet (↑i) V.undefined; pure (ForInStep.yield PUnit.unit) : M _)
+          fillUndefined 0 n
           rest)
         else (do
-          forIn [:n] PUnit.unit fun (i : Nat) (_ : PUnit) => (do stackSet (↑i) V.undefined; pure (ForInStep.yield PUnit.unit) : M _)
+          fillUndefined 0 n
           rest)) := by
   apply Rel2.ite
   · refine Rel2.bind (VR := Eq) (B := fun _ _ => False) (Rel2.panic _) ?_
     intro a b _
     exact Rel2.ofFalse
-  · refine Rel2.bind (VR := Eq) (rel_initLoop fc W0 n) ?_
+  · refine Rel2.bind (VR := Eq) (rel_fillUndefined fc W0 n) ?_
     intro a b _
     exact hrest _
 
